@@ -155,6 +155,85 @@ type txdataLike struct { // shape of eth_tx.txdata
 	V, R, S      *big.Int
 }
 
+type tNested2 struct {
+	L [][]byte
+	T tStruct
+	P *tStruct
+	I interface{}
+	Z [2]uint16
+	F bool
+}
+
+const tyStruct = "TStruct [TUint 8; TBytes; TBig] None"
+
+// Coq type descriptors (coq/C08/Typed.v) of the zoo types that the typed model covers.
+var zooTy = map[string]string{
+	"uint8": "TUint 1", "uint16": "TUint 2", "uint32": "TUint 4", "uint64": "TUint 8", "bigint": "TBig", "bool": "TBool",
+	"bytes": "TBytes", "string": "TBytes", "arr0": "TByteArr 0", "arr1": "TByteArr 1", "arr2": "TByteArr 2", "arr20": "TByteArr 20", "arr32": "TByteArr 32",
+	"slice-u64": "TSlice (TUint 8)", "slice-bytes": "TSlice TBytes", "struct": tyStruct,
+	"tail":        "TStruct [TUint 1] (Some (TUint 2))",
+	"nilptr":      "TStruct [TUint 8; TPtrNil (TByteArr 20); TUint 8] None",
+	"nilptr-list": "TStruct [TUint 8; TPtrNil (TSlice (TUint 8))] None",
+	"arr1x2":      "TStruct [TByteArr 1; TByteArr 1] None",
+	"ignore":      "TStruct [TUint 4; TBytes] None",
+	"nested2":     "TStruct [TSlice TBytes; " + tyStruct + "; TPtr (" + tyStruct + "); TIface; TArr 2 (TUint 2); TBool] None",
+	"txdata":      "TStruct [TUint 8; TBig; TUint 8; TPtrNil (TByteArr 20); TBig; TBytes; TBig; TBig; TBig] None",
+	"iface":       "TIface",
+}
+
+var bigIntType = reflect.TypeOf(big.Int{})
+
+// coqValue prints a decoded Go value as a term of type Typed.value.
+func coqValue(v reflect.Value) string {
+	t := v.Type()
+	if t == bigIntType {
+		bi := v.Addr().Interface().(*big.Int)
+		return "VNum " + bi.String()
+	}
+	switch v.Kind() {
+	case reflect.Uint8, reflect.Uint16, reflect.Uint32, reflect.Uint64, reflect.Uint:
+		return fmt.Sprintf("VNum %d", v.Uint())
+	case reflect.Bool:
+		return "VBool " + hx.CoqBool(v.Bool())
+	case reflect.String:
+		return "VBytes (unhex " + hx.CoqHex([]byte(v.String())) + ")"
+	case reflect.Ptr:
+		if v.IsNil() {
+			return "VNil"
+		}
+		return coqValue(v.Elem())
+	case reflect.Interface:
+		if v.IsNil() {
+			return "VNil"
+		}
+		return "VItem (" + coqItem(normTree(v.Interface())) + ")"
+	case reflect.Slice, reflect.Array:
+		if t.Elem().Kind() == reflect.Uint8 {
+			b := make([]byte, v.Len())
+			for i := range b {
+				b[i] = byte(v.Index(i).Uint())
+			}
+			return "VBytes (unhex " + hx.CoqHex(b) + ")"
+		}
+		parts := make([]string, v.Len())
+		for i := range parts {
+			parts[i] = coqValue(v.Index(i))
+		}
+		return "VList [" + strings.Join(parts, "; ") + "]"
+	case reflect.Struct:
+		var parts []string
+		for i := 0; i < t.NumField(); i++ {
+			f := t.Field(i)
+			if f.PkgPath != "" || strings.Contains(f.Tag.Get("rlp"), "-") {
+				continue
+			}
+			parts = append(parts, coqValue(v.Field(i)))
+		}
+		return "VList [" + strings.Join(parts, "; ") + "]"
+	}
+	panic("coqValue: unsupported " + t.String())
+}
+
 var zoo = []struct {
 	name string
 	mk   func() interface{}
@@ -181,6 +260,7 @@ var zoo = []struct {
 	{"arr1x2", func() interface{} { return new(tArr1) }},
 	{"ignore", func() interface{} { return new(tIgnore) }},
 	{"nested", func() interface{} { return new(tNested) }},
+	{"nested2", func() interface{} { return new(tNested2) }},
 	{"txdata", func() interface{} { return new(txdataLike) }},
 	{"raw", func() interface{} { return new(rlp.RawValue) }},
 	{"iface", func() interface{} { return new(interface{}) }},
@@ -203,6 +283,7 @@ func main() {
 		"(2) every header byte of those mutated, (3) random bytes, (4) hostile declared sizes, (5) boundary corpus; thorough adds the exhaustive small space. " +
 		"non-trivial = distinct input whose decode outcome is not 'rejected on the first byte' and not empty input")
 	cs := hx.NewCases(a.Out, "From V.C08 Require Import Model Harness.\nFrom V.Base Require Import Hex.", "string * dobs * sobs * cobs", "check", 400)
+	ts := hx.NewCasesNamed(a.Out, "typed", "From V.C08 Require Import Model Typed Harness.\nFrom V.Base Require Import Hex.", "ty * string * option value", "check_typed", 1500)
 
 	var inputs [][]byte
 	add := func(b []byte) { inputs = append(inputs, b) }
@@ -245,6 +326,45 @@ func main() {
 			}
 			add(enc[:rng.Intn(len(enc)+1)])
 			add(append(append([]byte{}, enc...), rng.Bytes(1+rng.Intn(3))...))
+		}
+	}
+	// encodings of structured typed values (and their single-byte mutations), so that the typed
+	// decoders see mostly-valid input
+	for i := 0; i < a.N/10; i++ {
+		addr := new([20]byte)
+		copy(addr[:], rng.Bytes(20))
+		var nilAddr *[20]byte
+		if rng.Bool() {
+			nilAddr = addr
+		}
+		var pl *[]uint64
+		if rng.Bool() {
+			pl = &[]uint64{rng.U64() >> uint(rng.Intn(64)), 1}
+		}
+		small := func() uint64 { return rng.U64() >> uint(8*rng.Intn(9)) }
+		ts1 := tStruct{small(), genBytes(rng), new(big.Int).SetBytes(rng.Bytes(rng.Intn(34)))}
+		vals := []interface{}{
+			ts1,
+			tTail{uint8(small()), []uint16{uint16(small()), uint16(rng.Intn(3))}},
+			tNil{small(), nilAddr, small()},
+			tNilList{small(), pl},
+			tArr1{[1]byte{byte(rng.Intn(3) * 0x40)}, [1]byte{byte(rng.U64())}},
+			tIgnore{uint32(small()), 7, string(genBytes(rng))},
+			tNested2{[][]byte{genBytes(rng), {}}, ts1, &ts1, genTree(rng, 2), [2]uint16{uint16(small()), 0}, rng.Bool()},
+			txdataLike{small(), big.NewInt(int64(rng.Intn(1000))), 21000, nilAddr, new(big.Int).SetBytes(rng.Bytes(rng.Intn(12))), genBytes(rng), big.NewInt(int64(27 + rng.Intn(2))), new(big.Int).SetBytes(rng.Bytes(32)), new(big.Int).SetBytes(rng.Bytes(32))},
+			[]uint64{small(), small(), 0}, [2]byte{byte(rng.U64()), 0}, rng.Bool(), uint16(small()),
+		}
+		for _, v := range vals {
+			enc, err := rlp.EncodeToBytes(v)
+			if err != nil || len(enc) > 96 {
+				continue
+			}
+			add(enc)
+			if rng.Intn(2) == 0 {
+				m := append([]byte{}, enc...)
+				m[rng.Intn(len(m))] = []byte{0x00, 0x80, 0xc0, 0x81, 0x01, 0xff}[rng.Intn(6)]
+				add(m)
+			}
 		}
 	}
 	for len(inputs) < a.N {
@@ -367,6 +487,13 @@ func main() {
 					res.Violate("C08/panic:"+z.name, fmt.Sprint(pan), hex.EncodeToString(b))
 					continue
 				}
+				if tyd, ok := zooTy[z.name]; ok && len(b) <= 96 && (err == nil || (idx+len(z.name))%4 == 0) {
+					obs := "None"
+					if err == nil {
+						obs = "Some (" + coqValue(reflect.ValueOf(tv).Elem()) + ")"
+					}
+					ts.Add(fmt.Sprintf("(%s, %s, %s)", tyd, hx.CoqHex(b), obs), map[string]string{"type": z.name, "input": hex.EncodeToString(b), "impl": obs})
+				}
 				if err != nil {
 					continue
 				}
@@ -411,7 +538,9 @@ func main() {
 		}
 	}
 	cs.Close()
-	res.ModelCases = cs.Total()
+	ts.Close()
+	res.ModelCases = cs.Total() + ts.Total()
+	res.Histogram["model-cases-typed"] = ts.Total()
 	res.Write(a.Out)
 }
 
